@@ -207,6 +207,110 @@ paths:
       responses: {"200": {description: ok}}
 `
 
+// fixedDeepRef: references whose pointers walk through members written as plain keys that read
+// as integers (status codes), through a path key with an escaped slash and through array items.
+const fixedDeepRef = `openapi: 3.0.3
+info: {title: deep, version: "1"}
+paths:
+  /pets:
+    get:
+      operationId: listPets
+      responses:
+        200:
+          description: ok
+          content:
+            application/json:
+              schema:
+                type: array
+                items:
+                  type: object
+                  required: [id]
+                  properties:
+                    id: {type: integer}
+                    tags:
+                      type: array
+                      items: {type: string, maxLength: 8}
+        404:
+          description: none
+          content:
+            application/json:
+              schema:
+                oneOf:
+                  - type: string
+                  - type: integer
+    post:
+      operationId: addPet
+      requestBody:
+        required: true
+        content:
+          application/json:
+            schema:
+              $ref: '#/paths/~1pets/get/responses/200/content/application~1json/schema/items'
+      responses:
+        201:
+          description: created
+          content:
+            application/json:
+              schema:
+                $ref: '#/paths/~1pets/get/responses/404/content/application~1json/schema/oneOf/1'
+        default:
+          description: error
+          content:
+            application/json:
+              schema:
+                $ref: '#/paths/~1pets/get/responses/200/content/application~1json/schema/items/properties/tags'
+`
+
+// fixedMerge: shared fragments anchored once and merged in with `<<`, next to members of the
+// mapping's own (extensions among them); every variant spells the merged members out.
+const fixedMerge = `openapi: 3.0.3
+info:
+  title: merge
+  version: "1"
+x-defs:
+  strictObject: &strictObject
+    type: object
+    additionalProperties: false
+  petTag: &petTag
+    tags: [pets]
+  okOnly: &okOnly
+    description: done
+paths:
+  /pets:
+    get:
+      <<: *petTag
+      operationId: listPets
+      x-ogen-operation-group: Pets
+      responses:
+        "200":
+          description: all pets
+          content:
+            application/json:
+              schema:
+                type: array
+                items:
+                  $ref: '#/components/schemas/Pet'
+    delete:
+      <<: [*petTag]
+      operationId: dropPets
+      responses:
+        "204":
+          <<: *okOnly
+components:
+  schemas:
+    Pet:
+      <<: *strictObject
+      x-ogen-name: Animal
+      required: [id]
+      properties:
+        id:
+          type: integer
+          format: int64
+        name:
+          type: string
+          x-ogen-name: Title
+`
+
 const fixedDupEnum = `openapi: 3.0.3
 info: {title: dup, version: "1"}
 paths:
@@ -236,7 +340,7 @@ func Check(r *core.Run) error {
 		"Conformance: every corpus document (positive, examples, negative), two skeleton documents built from the witness texts (enum/default/example/extension values, unsorted property names, look-alike names, numbers in plain decimal and in exotic YAML forms) and seeded invalid mutants are re-spelled by the harness's own emitter under the recipes; the harness re-reads each variant and demands the same data (else the harness is at fault), runs ogen.Parse -> gen.NewGenerator -> WriteSource on original and variant, and TLC judges: same outcome class, byte-identical files, or identical diagnostic with positions removed. " +
 		"Non-trivial = every judged variant; distinct = (recipe family, outcome class).")
 	res, err := tlc.Run(nil, tlc.Options{SpecDir: obs.SpecDir, Module: "SpellingMC", Timeout: 5 * time.Minute, Scratch: r.Scratch, Workers: 2,
-		Cfg: tlc.Cfg("INIT Init", "NEXT Next", "INVARIANTS KeepsStrings NonStringsPlain Witnessed", "CHECK_DEADLOCK FALSE")})
+		Cfg: tlc.Cfg("INIT Init", "NEXT Next", "INVARIANTS KeepsStrings NonStringsPlain Witnessed KeysAreNames", "CHECK_DEADLOCK FALSE")})
 	if err != nil {
 		return err
 	}
@@ -301,7 +405,7 @@ func Check(r *core.Run) error {
 	}
 	docs = append(docs, docCase{"skeleton-plain", skeleton(ws, false)}, docCase{"skeleton-exotic", skeleton(ws, true)})
 	// fixed shapes that get every recipe in both tiers (see allRecipes below)
-	docs = append(docs, docCase{"fixed-repeated-mappings", []byte(fixedRepeated)}, docCase{"fixed-duplicate-operation-id", []byte(fixedDupOp)}, docCase{"fixed-duplicate-enum-value", []byte(fixedDupEnum)})
+	docs = append(docs, docCase{"fixed-repeated-mappings", []byte(fixedRepeated)}, docCase{"fixed-duplicate-operation-id", []byte(fixedDupOp)}, docCase{"fixed-duplicate-enum-value", []byte(fixedDupEnum)}, docCase{"fixed-deep-references-through-plain-integer-keys", []byte(fixedDeepRef)}, docCase{"fixed-merge-keys-next-to-own-members", []byte(fixedMerge)})
 	// invalid mutants of the first documents: a diagnostic has to survive re-spelling too
 	rng := rand.New(rand.NewPCG(uint64(r.Seed), 0xC17))
 	nMut := 12
@@ -333,6 +437,7 @@ func Check(r *core.Run) error {
 	}
 	var jobs []job
 	na := map[string]int{}
+	nMerge := 0
 	refs := make([]*outcome, len(docs))
 	nodes := make([]*yaml.Node, len(docs))
 	var wg sync.WaitGroup
@@ -344,6 +449,13 @@ func Check(r *core.Run) error {
 			continue
 		}
 		nodes[i] = &n
+		if strings.HasPrefix(d.name, "fixed-merge") {
+			// the document is written with merge keys; its variants spell the members out
+			if e, ok := expandMerges(&n); ok {
+				nodes[i] = e
+				nMerge++
+			}
+		}
 		wg.Add(1)
 		go func(i int, data []byte) {
 			defer wg.Done()
@@ -383,6 +495,7 @@ func Check(r *core.Run) error {
 		desc string
 		na   string
 	}
+	r.Cov("documents_written_with_merge_keys_and_spelled_out_in_their_variants", nMerge)
 	results := make([]resT, len(jobs))
 	var flaky atomic.Int64
 	for k, j := range jobs {
